@@ -54,7 +54,14 @@ def run_job(job):
                 "known": {}, "sig": "diverged", "kinds": [], "nontrivial": False, "ntimeouts": 0, "ncrashes": 0}
     fails, known, facts = monitors.evaluate_attributed(scen, rec, job["props"])
     if job.get("starve_bodies"):
-        fails += monitors.starved(scen, rec, facts, job["props"])
+        # (failures of the body-starving oracles are attributed like the others: a forced shutdown whose own SIGKILL hit
+        #  a worker inside the management-lock window is the listed D5, not a new violation)
+        for fl in monitors.starved(scen, rec, facts, job["props"]):
+            kid = monitors.attribute(scen, rec, facts, fl)
+            if kid:
+                known.setdefault(kid, []).append(fl)
+            else:
+                fails.append(fl)
     out.update(end=rec["end"], steps=rec["steps"], fails=fails, known={k: v for k, v in known.items()},
                sig=_sig(rec), kinds=sorted(_kinds(rec)),
                nontrivial=bool(facts["timeouts"] or facts["crashes"] or facts["cancels"] or facts["kill_shutdown"]
